@@ -439,3 +439,59 @@ func verifH_CliConversation() {
 	verifAssert(verifLiveGoroutines() == 0, "C14.cli-conv-no-goroutine-left")
 	verifAssert(!verifMutexHeld(&c.mu) && !verifMutexHeld(&s2.metaMu) && !verifMutexHeld(&s3.metaMu), "C15.cli-conv-locks-released")
 }
+
+// S-CLI-INTERLEAVE (C01 C03): the client's real receive loop fed the frames of two responses on two
+// RPCs, interleaved in every order that keeps each RPC's own frames in order (envelope, continuation,
+// continuation), with symbolic payload bytes: each caller gets its own message, whole and unmixed, then
+// its own status.
+func verifH_CliInterleave() {
+	car := vNewCliCarrier(context.Background())
+	car.hold = true
+	c := vNewCliChannel(car, 0, false)
+	c.useRevision = tunnelpb.ProtocolRevision_REVISION_ONE
+	s1, err := c.newStream(context.Background(), true, true, "a/s")
+	verifAssume(err == nil)
+	s2, err := c.newStream(context.Background(), true, true, "a/s")
+	verifAssume(err == nil)
+	p1, p2 := verifBytes("payload1", 6), verifBytes("payload2", 6)
+	verifAssume(len(p1) == 6 && len(p2) == 6)
+	w1, w2 := verifWire(p1), verifWire(p2)
+	mk := func(id int64, w []byte, code int32) []*tunnelpb.ServerToClient {
+		a, b := len(w)/3, 2*len(w)/3
+		return []*tunnelpb.ServerToClient{
+			{StreamId: id, Frame: &tunnelpb.ServerToClient_ResponseMessage{ResponseMessage: &tunnelpb.MessageData{Size: uint32(len(w)), Data: w[:a]}}},
+			{StreamId: id, Frame: &tunnelpb.ServerToClient_MoreResponseData{MoreResponseData: w[a:b]}},
+			{StreamId: id, Frame: &tunnelpb.ServerToClient_MoreResponseData{MoreResponseData: w[b:]}},
+			{StreamId: id, Frame: &tunnelpb.ServerToClient_CloseStream{CloseStream: &tunnelpb.CloseStream{Status: &spb.Status{Code: code, Message: "m"}}}},
+		}
+	}
+	f1, f2 := mk(s1.streamID, w1, 0), mk(s2.streamID, w2, 5)
+	// every merge of the two sequences
+	i, j := 0, 0
+	for i < len(f1) || j < len(f2) {
+		if j == len(f2) || (i < len(f1) && verifBool("nextFromFirst")) {
+			car.script = append(car.script, f1[i])
+			i++
+		} else {
+			car.script = append(car.script, f2[j])
+			j++
+		}
+	}
+	verifGo("receive-loop", func() { c.recvLoop() })
+	verifDrain()
+	verifAssert(car.pos == len(car.script) && vChanOpenRO(c.Done()), "C03.interleave-every-frame-consumed-and-the-tunnel-is-up")
+	m1, m2 := &wrapperspb.BytesValue{}, &wrapperspb.BytesValue{}
+	// the second RPC is read first
+	e2 := s2.RecvMsg(m2)
+	verifAssert(e2 == nil, "C01.interleave-second-rpc-gets-a-message")
+	verifAssertBytesEq(m2.Value, p2, "C01.interleave-second-rpc-gets-its-own-message-whole")
+	verifAssert(status.Code(s2.RecvMsg(&wrapperspb.BytesValue{})) == codes.NotFound, "C02.interleave-second-rpc-gets-its-own-status")
+	e1 := s1.RecvMsg(m1)
+	verifAssert(e1 == nil, "C01.interleave-first-rpc-gets-a-message")
+	verifAssertBytesEq(m1.Value, p1, "C01.interleave-first-rpc-gets-its-own-message-whole")
+	verifAssert(s1.RecvMsg(&wrapperspb.BytesValue{}) == io.EOF, "C01+C02.interleave-first-rpc-ends-ok-after-its-message")
+	verifCover("interleaved")
+	close(car.hangup)
+	verifDrain()
+	verifAssert(verifLiveGoroutines() == 0, "C14.interleave-no-goroutine-left")
+}
